@@ -112,8 +112,17 @@ def _assemble(desc):
     attrs = []
     if allrows and rng.random() < 0.7:
         for j in range(rng.randint(1, 2)):
-            attrs.append({"name": "attr%d" % j, "type": rng.choice(["bool", "int", "float"]), "size": rng.choice([1, 1, 3]), "dense": rng.random() < 0.5})
-    return {"V": V, "E": allrows, "F": [list(map(int, f)) for f in F], "C": [list(map(int, c)) for c in C], "attrs": attrs, "sides": sides}
+            a = {"name": "attr%d" % j, "type": rng.choice(["bool", "int", "float"]), "size": rng.choice([1, 1, 3]), "dense": rng.random() < 0.5}
+            # entries written before construction: all of them, or a non-contiguous subset (the others must read the default afterwards)
+            if rng.random() < 0.5:
+                a["set"] = list(range(len(allrows)))
+            else:
+                a["set"] = sorted(rng.sample(range(len(allrows)), rng.randint(1, max(1, len(allrows) - 1))))
+            if a["size"] == 1 and a["type"] != "bool" and rng.random() < 0.4:
+                a["default"] = {"int": -7, "float": 2.25}[a["type"]]
+            attrs.append(a)
+    early = rng.choice([None, None, "after_vertices", "after_edges", "after_faces"])
+    return {"V": V, "E": allrows, "F": [list(map(int, f)) for f in F], "C": [list(map(int, c)) for c in C], "attrs": attrs, "sides": sides, "early_read": early}
 
 
 def _payload(a, i):
@@ -148,16 +157,27 @@ def _construct(ctx, inp, desc, irows, tmpdir):
     ctx.cls("route:" + route)
     if route == "raw":
         data = M.mesh.RawMeshData()
+        early = inp.get("early_read")
+
+        def peek(stage):
+            # a caller may look at the raw container while filling it (history quantifier): the answers must not freeze the result
+            if early == stage:
+                ctx.cls("early_read:" + stage)
+                _ = (data.dimensionality, len(data.id_vertices), len(data.id_edges), len(data.id_faces), len(data.id_cells))
         data.vertices += build.coords(V, desc["vrows"])
+        peek("after_vertices")
         if E:
             data.edges += build.rows(E, irows)
+        peek("after_edges")
         if F:
             data.faces += build.rows(F, irows)
+        peek("after_faces")
         if C:
             data.cells += build.rows(C, irows)
         for a in inp["attrs"]:
-            at = data.edges.create_attribute(a["name"], _pytype(a["type"]), a["size"], dense=a["dense"])
-            for i in range(len(E)):
+            kw = {"default_value": a["default"]} if "default" in a else {}
+            at = data.edges.create_attribute(a["name"], _pytype(a["type"]), a["size"], dense=a["dense"], **kw)
+            for i in a["set"]:
                 at[i] = _payload(a, i)
         return M.mesh.mesh._instanciate_raw_mesh_data(data), route
     if route == "from_arrays":
@@ -324,16 +344,20 @@ def _check_norm(ctx, m, inp, desc, route):
             ctx.violation("norm", "edge_attr", "attribute_lost", "an edge attribute disappeared during construction", name=a["name"])
             continue
         at = m.edges.get_attribute(a["name"])
-        seen_payloads = []
+        dflt = a.get("default", {"bool": False, "int": 0, "float": 0.0}[a["type"]])
+        dflt = dflt if a["size"] == 1 else [dflt] * a["size"]
+        was_set = set(a["set"])
         for e, i in valid:
             if e not in index:
                 continue
             ok, v = ctx.call("edge_attr_read", at.__getitem__, index[e], monitor="norm", abort=False)
             if not ok:
                 break
-            if not _eq(v, _payload(a, i)):
-                ctx.violation("norm", "edge_attr", "surviving_edge_lost_its_value", "a surviving declared edge does not keep its attribute value",
-                              edge=e, got=np.asarray(v).tolist(), want=_payload(a, i), dense=a["dense"], type=a["type"])
+            want = _payload(a, i) if i in was_set else dflt
+            if not _eq(v, want):
+                ctx.violation("norm", "edge_attr", "surviving_edge_lost_its_value" if i in was_set else "unset_surviving_edge_does_not_read_default",
+                              "a surviving declared edge does not keep its attribute value (or, never written, does not read the default)",
+                              edge=e, got=np.asarray(v).tolist(), want=want, dense=a["dense"], type=a["type"], partially_set=len(was_set) < len(inp["E"]))
                 break
         # edges that were not declared must read the default; dropped payloads must be gone
         if a["type"] != "bool":
@@ -342,7 +366,7 @@ def _check_norm(ctx, m, inp, desc, route):
                 if e in declared_set:
                     continue
                 ok, v = ctx.call("edge_attr_read", at.__getitem__, idx, monitor="norm", abort=False)
-                if ok and not _eq(v, 0 if a["size"] == 1 else [0] * a["size"]):
+                if ok and not _eq(v, dflt):
                     ctx.violation("norm", "edge_attr", "value_moved_to_another_edge", "an attribute value ended up on an edge that was not declared",
                                   edge=e, got=np.asarray(v).tolist())
                     break
